@@ -182,6 +182,7 @@ pub fn generate(rng: &mut Rng, tier: Tier, stats: &mut GenStats) -> Scenario {
     // above re-spell bases)
     if nw == 1 {
         maybe_above(&mut g, &mut walkers[0], 10);
+        maybe_empty_base(&mut g, &mut walkers[0], &cwd, 3);
     }
     Scenario {
         prop: "C02".into(),
